@@ -332,6 +332,58 @@ class PassDumper:
         self.n += 1
 
 
+def build_synth(spec: dict):
+    """Hand-built FuncIR from a JSON spec (IR shapes the passes must handle although irbuild rarely emits them)."""
+    from mypyc.ir import ops as O
+    from mypyc.ir.func_ir import FuncDecl, FuncIR, FuncSignature, RuntimeArg
+    from mypyc.ir.rtypes import bool_rprimitive, int64_rprimitive, pointer_rprimitive
+    T = {"i64": int64_rprimitive, "bool": bool_rprimitive}
+    env: dict = {}
+    args = []
+    for n, t in spec["args"]:
+        env[n] = O.Register(T[t], n, is_arg=True)
+        args.append(env[n])
+    for n, t in spec["regs"]:
+        env[n] = O.Register(T[t], n)
+    blocks = [O.BasicBlock(i) for i in range(len(spec["blocks"]))]
+
+    def val(x):
+        if isinstance(x, str) and x.startswith("#"):
+            return O.Integer(int(x[1:]), int64_rprimitive)
+        return env[x]
+    for b, ops in zip(blocks, spec["blocks"]):
+        for op in ops:
+            k = op[0]
+            if k == "assign":
+                b.ops.append(O.Assign(env[op[1]], val(op[2])))
+            elif k == "intop":
+                env[op[1]] = O.IntOp(int64_rprimitive, val(op[2]), val(op[3]), O.IntOp.ADD if len(op) < 5 else op[4])
+                b.ops.append(env[op[1]])
+            elif k == "cmp":
+                env[op[1]] = O.ComparisonOp(val(op[2]), val(op[3]), O.ComparisonOp.SLT if len(op) < 5 else op[4])
+                b.ops.append(env[op[1]])
+            elif k == "addr":
+                env[op[1]] = O.LoadAddress(pointer_rprimitive, env[op[2]])
+                b.ops.append(env[op[1]])
+            elif k == "loadmem":
+                env[op[1]] = O.LoadMem(int64_rprimitive, val(op[2]))
+                b.ops.append(env[op[1]])
+            elif k == "goto":
+                b.ops.append(O.Goto(blocks[op[1]]))
+            elif k == "branch":
+                br = O.Branch(val(op[1]), blocks[op[2]], blocks[op[3]], O.Branch.BOOL)
+                br.negated = bool(op[4]) if len(op) > 4 else False
+                b.ops.append(br)
+            elif k == "return":
+                b.ops.append(O.Return(val(op[1])))
+            elif k == "unreachable":
+                b.ops.append(O.Unreachable())
+            else:
+                raise ValueError(k)
+    sig = FuncSignature([RuntimeArg(n, T[t]) for n, t in spec["args"]], int64_rprimitive)
+    return FuncIR(FuncDecl(spec["name"], None, "synthetic", sig), args, blocks)
+
+
 def dump_passes(job: dict) -> None:
     from mypy.errors import CompileError
     from mypyc.codegen import emitmodule
@@ -394,6 +446,19 @@ def dump_passes(job: dict) -> None:
         t0 = time.time()
         n0 = d.n
         err = ""
+        if item["kind"] == "synth":
+            from mypyc.options import CompilerOptions
+            cur["tag"] = item["name"]
+            try:
+                for spec in item["funcs"]:
+                    fn = build_synth(spec)
+                    emitmodule.do_copy_propagation(fn, CompilerOptions())
+                    emitmodule.do_flag_elimination(fn, CompilerOptions())
+            except Exception as e:  # noqa
+                import traceback
+                err = f"exception {type(e).__name__}: {e} {traceback.format_exc()[-800:]}"
+            status.append({"item": item["name"], "file": "", "err": err, "pairs": (d.n - n0) // 2, "s": round(time.time() - t0, 2)})
+            continue
         if item["kind"] == "test":
             tf = item["file"]
             if tf not in cache:
